@@ -135,7 +135,11 @@ type c20Obs struct {
 // c20Concurrent is the body of one controlled execution of a scenario.
 func c20Concurrent(sc c20Scenario, obs *c20Obs) func() {
 	return func() {
-		c := NewLRUCache(WithCapacity(sc.Cfg.Cap), WithMaxSize(sc.Cfg.MaxSize), WithDefaultTTL(time.Duration(sc.Cfg.TTL)*time.Second))
+		// every cache has an eviction callback (an embedder's metrics or write-back hook): code that runs callbacks
+		// outside the critical section opens a window that caches without a callback never show
+		evicted := 0
+		c := NewLRUCache(WithCapacity(sc.Cfg.Cap), WithMaxSize(sc.Cfg.MaxSize), WithDefaultTTL(time.Duration(sc.Cfg.TTL)*time.Second),
+			WithOnEvict(func(string, interface{}) { evicted++; vrt.SchedPoint("onEvict", nil) }))
 		defer c.Close()
 		for _, o := range sc.Setup {
 			c20Do(c, o, false)
@@ -180,7 +184,11 @@ func c20Concurrent(sc c20Scenario, obs *c20Obs) func() {
 func c20Sequential(sc c20Scenario, ops []c20Op) []string {
 	var out []string
 	vrt.RunOnce(vrt.Config{NoAutoTimers: true}, nil, func() {
-		c := NewLRUCache(WithCapacity(sc.Cfg.Cap), WithMaxSize(sc.Cfg.MaxSize), WithDefaultTTL(time.Duration(sc.Cfg.TTL)*time.Second))
+		// every cache has an eviction callback (an embedder's metrics or write-back hook): code that runs callbacks
+		// outside the critical section opens a window that caches without a callback never show
+		evicted := 0
+		c := NewLRUCache(WithCapacity(sc.Cfg.Cap), WithMaxSize(sc.Cfg.MaxSize), WithDefaultTTL(time.Duration(sc.Cfg.TTL)*time.Second),
+			WithOnEvict(func(string, interface{}) { evicted++; vrt.SchedPoint("onEvict", nil) }))
 		defer c.Close()
 		for _, o := range sc.Setup {
 			c20Do(c, o, false)
